@@ -14,6 +14,7 @@ import random
 
 from vlib import core
 from vlib import graph_gen as gg
+from vlib import logicizer_gen
 from vlib.core import Broken, Mismatch, Failing
 
 ID = 'C20'
@@ -33,20 +34,43 @@ CORPUS = os.path.join(core.VERIF, 'corpus', 'C20')
 
 def prove(ctx):
     with ctx.coq_lock():
-        ctx.prove('Properties/C20.v')
+        # tie T: regenerate gen/LogicizerGen.v from the current logicizer.py
+        # and syntax.py, then re-prove GenProofs/LogicizerBridge.v (generated
+        # code = model) and the statements built on it
+        notes = logicizer_gen.ensure_logicizer(ctx)
+        ctx.prove_with_deps('Properties/C20.v')
+    ctx.extra['translation'] = dict(
+        sources=logicizer_gen.SOURCES, functions=logicizer_gen.FUNCTIONS,
+        generated='coq/gen/LogicizerGen.v',
+        bridge='coq/GenProofs/LogicizerBridge.v',
+        string_templates=logicizer_gen.templates().splitlines(),
+        notes=notes)
     ctx.trusted.append(
-        'tie H (hand-written model): omega/symbolic/logicizer.py and '
-        'omega.logic.syntax.conj/disj are modelled by hand in '
-        'theories/L6Graph/{Formula,Logicizer}.v at the level of the predicate '
-        'each assembled string denotes; the string -> BDD step '
-        '(`aut.add_expr`) is C06\'s subject and is exercised here only '
-        'through the fixed label alphabet of tools/vlib/graph_gen.py, whose '
-        'meaning is written by hand in GraphTables.esem_alpha/nsem_alpha')
+        'translator tie T: tools/py2coq_logicizer.py (logicizer.py '
+        'graph_to_logic, _graph_to_formulas, _sys_trans, _env_trans, '
+        '_env_trans_from_sys_ts, _node_var_trans, _init_from_ts, _to_action, '
+        '_assign, _prime_dict, _pstr, _nodevar_dom, _add_expr and syntax.py '
+        'conj, disj, _associative_op, _recurse_op -> Gallina, proved equal '
+        'to theories/L6Graph/{Formula,Logicizer}.v on every run). Trusted in '
+        'it: the fixed table of string templates (which tree an f-string / '
+        'concatenation is read as; printed in gen/LogicizerGen.v), the '
+        'erasure of type hints (the three formats of _assign are read as '
+        'the same atom; its ValueError / unknown-hint branches are not '
+        'modelled), of the white-space separator, of logging; raise and '
+        'assert become preconditions (code_accepts); everything skipped is '
+        'listed as a note in the generated file and in the evidence')
     ctx.trusted.append(
-        'the Gallina literal of each graph is read from the networkx object '
-        'handed to graph_to_logic (g.nodes(data=True), g.edges(data=True), '
+        'tie H remains for: the string -> BDD step (`aut.add_expr`, C06\'s '
+        'subject) and the meaning of the fixed label alphabet of '
+        'tools/vlib/graph_gen.py (GraphTables.esem_alpha/nsem_alpha), both '
+        'exercised by the truth-table correspondence of this check')
+    ctx.trusted.append(
+        'the graph record is read from the networkx object handed to '
+        'graph_to_logic (g.nodes(data=True), g.edges(data=True), '
         'g.initial_nodes, g.vars, g.env_vars, g.owner) by '
-        'tools/vlib/graph_gen.py tsys_lit')
+        'tools/vlib/graph_gen.py tsys_lit; that g.edges(u, data=True) are '
+        'the entries of g.edges(data=True) leaving u and that g.succ.get(u) '
+        'is true iff there is one are networkx facts')
 
 
 # ------------------------------------------------------------ one case
